@@ -191,6 +191,24 @@ class ThreadSim(object):
                 return
             u = self.urls[ev.get("u", 0) % len(self.urls)]
             args = dict(urllib.parse.parse_qsl(urllib.parse.urlsplit(u["url"]).query, keep_blank_values=True))
+            if ev.get("candidates"):
+                # a receiver whose metadata lists several signing certificates for the sender (key roll-over): the
+                # one parsed query is checked against each candidate in turn; the verdict under the signer's own
+                # certificate is True and under every other one False, wherever it stands in the list
+                keys_ = [u["key"] if c == "own" else c for c in ev["candidates"]]
+                for kk in keys_:
+                    try:
+                        ok = sigver.verify_redirect_signature(args, obj.sec.sec_backend, cert_b64(kk))
+                    except Exception as e:
+                        ok = "EXC:" + type(e).__name__
+                    self.log.append(("verify-candidate", ev["e"], u["e"], kk == u["key"], str(ok)))
+                    if kk == u["key"] and ok is not True:
+                        self.viol(i, "own-url-does-not-verify", "entity=%s alg=%s candidates=%s verdict under own certificate: %s" % (
+                            u["e"], u["alg"], ev["candidates"], ok))
+                    elif kk != u["key"] and ok is True:
+                        self.viol(i, "verifies-under-foreign-key", "entity=%s verifies under k%d (candidates %s)" % (u["e"], kk, ev["candidates"]))
+                self.count("step.verify-candidates")
+                return
             try:
                 ok = sigver.verify_redirect_signature(args, obj.sec.sec_backend, cert_b64(u["key"]))
             except Exception as e:
@@ -433,6 +451,9 @@ def generate(seed, prop, tier):
                        "response": e["kind"] == "idp" and r.chance(0.7)})
         if k == "verify":
             ev["u"] = r.randrange(100)
+            if r.chance(0.5):
+                other = r.pick([x["key"] for x in ents])
+                ev["candidates"] = r.pick([[other, "own"], ["own", other], [other, "own", other]])
         evs.append(ev)
     # make sure held signers exist before 'sign': prepend obtains in threads mode so windows exist
     return {"engine": "threadsim", "prop": "C15", "seed": seed, "tier": tier, "mode": mode,
